@@ -197,6 +197,7 @@ type prodScen struct {
 	rrLast   map[string]int32
 	views    []viewLists
 	pending  int
+	produceReqs int
 }
 
 type wireSeq struct {
@@ -592,6 +593,19 @@ func (ps *prodScen) onHang(dump string) {
 	if ps.closeRequested && !ps.closeReturned {
 		ps.r.violate("C12.close-hang", "producer shutdown did not complete; parked: %v", frames)
 	}
+	// C16: a buffered message is sent once a configured trigger fires, without waiting for further input.
+	// With Flush.Frequency set (or no trigger at all) every accepted message must reach the wire.
+	if f := ps.c.Config.Flush; f.FreqMs > 0 || (f.Messages == 0 && f.Bytes == 0) {
+		var never []string
+		for _, mi := range ps.sortedMsgs() {
+			if mi.submitted && mi.wireCount == 0 && len(mi.events) == 0 {
+				never = append(never, fmt.Sprintf("m%d", mi.id))
+			}
+		}
+		if len(never) > 0 && strings.Contains(ps.historyClass(), "fault-free") {
+			ps.r.violate("C16.flush-late", "messages %v were accepted but never sent although Flush.Frequency=%dms (or no trigger) requires a flush without further input; waited %d ms of fake time", never, f.FreqMs, ps.c.MaxSimMs)
+		}
+	}
 	ps.judge()
 }
 
@@ -713,6 +727,7 @@ func (ps *prodScen) onProduce(br *mbroker, c *simConn, ver int16, frameLen int, 
 			r.violate("C16.batch-too-big", "batch for %s carries %d messages with %d key+value bytes > MaxMessageBytes=%d", key, n, kv, ps.cfg.Producer.MaxMessageBytes)
 		}
 	}
+	ps.produceReqs++
 	if mm := ps.cfg.Producer.Flush.MaxMessages; mm > 0 && total > mm {
 		r.violate("C16.too-many-messages", "produce request carries %d messages > Flush.MaxMessages=%d", total, mm)
 	}
@@ -1041,6 +1056,21 @@ func (ps *prodScen) judge() {
 			}
 			if fmt.Sprint(mi.trail) != fmt.Sprint(want) {
 				r.violate("C18.producer-trail", "interceptors applied to m%d: %v, expected exactly %v (retried=%v)", mi.id, mi.trail, want, mi.wireCount > 1)
+			}
+		}
+	}
+	// C16 flush timing (fault-free runs): with Flush.Frequency set, or no trigger configured, a message is on
+	// the wire within the flush interval plus the round trips of the requests queued ahead of it
+	if f := c.Config.Flush; strings.Contains(ps.historyClass(), "fault-free") && (f.FreqMs > 0 || (f.Messages == 0 && f.Bytes == 0)) {
+		rtt := int64(2*c.Net.MaxUs + 2000)
+		if c.Net.Model == "heavy" {
+			rtt *= 10
+		}
+		bound := int64(f.FreqMs)*2000 + int64(ps.produceReqs+8)*rtt + int64(c.Config.DialTimeoutMs)*1000
+		for _, mi := range msgs {
+			if mi.submitted && mi.wireUs >= 0 && mi.wireUs-mi.submitUs > bound {
+				r.violate("C16.flush-late", "m%d reached the wire %d us after it was submitted; Flush.Frequency=%dms, %d produce requests in the run, bound %d us", mi.id, mi.wireUs-mi.submitUs, f.FreqMs, ps.produceReqs, bound)
+				break
 			}
 		}
 	}
